@@ -170,8 +170,11 @@ def main():
         pathlib.Path.mkdir = real_mkdir
     if cfg.get("second") and state.get("outcome") == "returned":
         # history: rewrite the same path and call target() again in this process
+        st0 = os.stat(script_path)
         with open(script_path, "w", encoding="utf-8") as f:
             f.write(cfg["second"])
+        if cfg.get("second_same_stat"):
+            os.utime(script_path, ns=(st0.st_atime_ns, st0.st_mtime_ns))
         p2 = parse(cfg["second"])
         sec = {"expected_cpp": emit(p2), "expected_libs": Reduino._collect_required_libraries(p2)}
         first_state = dict(state)
